@@ -127,7 +127,7 @@ fn plain(v: &[u32]) -> String {
     v.iter().map(|x| x.to_string()).collect::<Vec<_>>().join(",")
 }
 
-pub fn project(b: &Block, honest: bool, ids: &mut Ids) -> String {
+pub fn project(b: &Block, honest: bool, ok_no_parent: bool, ids: &mut Ids) -> String {
     let mut ins = vec![];
     let mut outs = vec![];
     for tx in &b.transactions {
@@ -141,13 +141,14 @@ pub fn project(b: &Block, honest: bool, ids: &mut Ids) -> String {
     let j = |v: Vec<String>| if v.is_empty() { "-".to_string() } else { v.join(",") };
     let hs = b.graveyard as u128 + b.treasury as u128 + b.previous_block_unpaid as u128 + b.total_fees as u128;
     format!(
-        "add {} {} {} {} {} {} {} {} {}",
+        "add {} {} {} {} {} {}{} {} {} {}",
         ids.h(&b.hash),
         ids.h(&b.previous_block_hash),
         b.id,
         b.burnfee,
         b.has_golden_ticket as u8,
         honest as u8,
+        ok_no_parent as u8,
         hs,
         j(ins),
         j(outs)
@@ -283,10 +284,11 @@ pub async fn run_case(
     tree: &Tree,
     specs: &[NodeSpec],
     order: &[usize],
+    prune_after: u64,
     emit: &mut dyn FnMut(&str, &str),
 ) {
     let mut ids = Ids::default();
-    let mut node = Node::new(9, Cfg::new(GP, HEARTBEAT, 50));
+    let mut node = Node::new(9, Cfg::new(GP, HEARTBEAT, prune_after));
     let oracle = Oracle { tree };
     emit("S", &format!("reset {} 0", GP));
     let mut seq: Vec<(&Block, bool)> = vec![(&tree.genesis, true)];
@@ -297,9 +299,13 @@ pub async fn run_case(
     let ctx = describe(specs, order);
     // features of the history so far, computed by the harness alone; they go into every finding key so that a
     // failure on a history WITHOUT the feature behind a listed finding is a different, unlisted key
-    let (mut f_orphan, mut f_failed, mut f_nonexist) = (false, false, false);
+    let (mut f_orphan, mut f_failed, mut f_nonexist, mut f_tampered) = (false, false, false, false);
     for (step, (b, honest)) in seq.iter().enumerate() {
-        let op = project(b, *honest, &mut ids);
+        let onp = validates_without_parent(b, &node.cfg).await;
+        let op = project(b, *honest, onp, &mut ids);
+        if !*honest {
+            f_tampered = true;
+        }
         emit("O", &op);
         let before = snapshot(&node, &mut ids).await;
         let blk = (*b).clone();
@@ -310,7 +316,18 @@ pub async fn run_case(
                 emit("I", "res=panic");
                 emit("H", "result:panic");
                 let site = if msg.contains("invalid total supply") { "check_total_supply" } else { "other" };
-                emit("M", &format!("C11/add_block-panics/{}\t{}\t{}", site, msg.replace('\t', " ").replace('\n', " "), serde_json::json!({"case": ctx, "step": step, "op": op})));
+                let rj = serde_json::json!({"case": ctx, "step": step, "op": op});
+                emit("M", &format!("C11/add_block-panics/{}\t{}\t{}", site, msg.replace('\t', " ").replace('\n', " "), rj));
+                // a crash while adding a block on a history that has none of the features behind the listed findings
+                // (every block delivered after its parent, nothing rejected, every input exists on its chain) is a new
+                // failure of the ledger / no-trace / fork-choice properties too
+                let parent_known_now = b.previous_block_hash == [0; 32] || delivered.contains(&b.previous_block_hash);
+                let spends_missing = oracle.chain_to(&b.hash).map(|c| !replay(&c, &mut ids).1).unwrap_or(true);
+                if parent_known_now && !f_orphan && !f_failed && !f_nonexist && !f_tampered && !spends_missing {
+                    for p in ["C03", "C04", "C05"] {
+                        emit("M", &format!("{}/add_block-panics/clean-history\t{}\t{}", p, msg.replace('\t', " ").replace('\n', " "), rj));
+                    }
+                }
                 return;
             }
         };
@@ -332,11 +349,13 @@ pub async fn run_case(
                 }
             }
         }
-        // primary feature of the history (priority order)
+        // primary feature of the history (priority order). Keys of failures on histories WITH a feature name the
+        // property and the feature only (the manifestations of one root cause vary from seed to seed); failures on a
+        // clean history keep their manifestation in the key.
         let feats = if f_orphan {
             "history-with-block-delivered-before-its-parent"
-        } else if f_failed {
-            "history-with-rejected-block"
+        } else if f_failed || f_tampered {
+            "history-with-invalid-block-offered"
         } else if f_nonexist {
             "history-with-block-spending-nonexistent-output"
         } else {
@@ -344,12 +363,16 @@ pub async fn run_case(
         };
         let replay_json = serde_json::json!({"case": ctx, "step": step, "op": op});
         let mut fail = |key: String, what: String| {
-            emit("M", &format!("{}/{}\t{}\t{}", key, feats, what, replay_json));
+            if feats == "clean-history" {
+                emit("M", &format!("{}/clean-history\t{}\t{}", key, what, replay_json));
+            } else {
+                emit("M", &format!("{}/{}\t[{}] {}\t{}", &key[..3], feats, key, what, replay_json));
+            }
         };
-
         // the ring's own tip lookup panics: every later call into the node would crash
         if after.tip.0 == u64::MAX {
-            fail("C04/tip-lookup-panics-after-rejected-block".to_string(), "get_latest_block_id panics (ring item index out of range) after add_block returned".into());
+            // root cause is the failed reorganisation itself, whatever else the history contains: fixed feature
+            emit("M", &format!("C04/history-with-invalid-block-offered\t[C04/tip-lookup-panics] get_latest_block_id panics (ring item index out of range) after add_block returned {}\t{}", cls, replay_json));
             return;
         }
         // ---- C03: ledger state = replay of the longest chain; index, flags and tip describe that chain
@@ -496,6 +519,9 @@ pub fn shapes(k: usize) -> Vec<Vec<Option<usize>>> {
 pub struct CaseSpec {
     pub specs: Vec<NodeSpec>,
     pub orders: Vec<Vec<usize>>,
+    /// `prune_after_blocks` of the node under test (small values drop transactions of older blocks from memory;
+    /// they are re-read from the block files when such a block is unwound)
+    pub prune_after: u64,
 }
 
 /// the deterministic list of cases of a run
@@ -520,14 +546,14 @@ pub fn cases(seed: u64, tier: &str) -> Vec<CaseSpec> {
     };
     // 0. the witnesses of the listed defects
     for (_, specs, order) in witnesses() {
-        v.push(CaseSpec { specs, orders: vec![order] });
+        v.push(CaseSpec { specs, orders: vec![order], prune_after: 50 });
     }
     // 1. corpus: hand-written shapes behind the known findings (always first)
     //    fork [A1,A2] vs [B1,B2,B3] with B3 / B2 / B1 tampered: failure at last/middle/first wound block
     for bad in [4usize, 3, 2] {
         let parents = vec![None, Some(0), None, Some(2), Some(3)];
         let specs = attr(&mut r, &parents, Some(bad), false);
-        v.push(CaseSpec { specs, orders: vec![vec![0, 1, 2, 3, 4]] });
+        v.push(CaseSpec { specs, orders: vec![vec![0, 1, 2, 3, 4]], prune_after: 50 });
     }
     //    two rejected siblings on a side branch
     {
@@ -535,7 +561,7 @@ pub fn cases(seed: u64, tier: &str) -> Vec<CaseSpec> {
         let mut specs = attr(&mut r, &parents, None, false);
         specs[4].tamper = true;
         specs[5].tamper = true;
-        v.push(CaseSpec { specs, orders: vec![vec![0, 1, 2, 3, 4, 5], vec![0, 3, 4, 5, 1, 2]] });
+        v.push(CaseSpec { specs, orders: vec![vec![0, 1, 2, 3, 4, 5], vec![0, 3, 4, 5, 1, 2]], prune_after: 50 });
     }
     // 2. exhaustive small trees × all delivery orders
     let kmax = if thorough { 5 } else { 4 };
@@ -557,9 +583,39 @@ pub fn cases(seed: u64, tier: &str) -> Vec<CaseSpec> {
                         o.push(d);
                     }
                 }
-                v.push(CaseSpec { specs, orders });
+                let prune_after = if r.coin(1, 3) { 1 } else { 50 };
+                v.push(CaseSpec { specs, orders, prune_after });
             }
         }
+    }
+    // 2b. deep reorganisations with pruned blocks: branch A (value transactions) is seen first and partly pruned,
+    //     branch B overtakes it by one block, then A overtakes again (unwinds / re-winds blocks whose transactions
+    //     had been dropped from memory)
+    let ndeep = if thorough { 24 } else { 6 };
+    for k in 0..ndeep {
+        let a = 3 + (k % 5); // length of A's first stretch
+        let mut parents: Vec<Option<usize>> = vec![];
+        for i in 0..a {
+            parents.push(if i == 0 { None } else { Some(i - 1) });
+        }
+        let fork_at = if k % 2 == 0 { None } else { Some(0) };
+        for i in 0..a + 1 {
+            parents.push(if i == 0 { fork_at } else { Some(a + i - 1) });
+        }
+        // A grows by two more blocks on top of its old tip
+        parents.push(Some(a - 1));
+        parents.push(Some(parents.len() - 1));
+        if fork_at.is_some() {
+            parents.push(Some(parents.len() - 1));
+        }
+        let mut specs = attr(&mut r, &parents, None, false);
+        for s in specs.iter_mut() {
+            s.tx = 1;
+            s.gt = true;
+            s.dt = 400;
+        }
+        let order: Vec<usize> = (0..parents.len()).collect();
+        v.push(CaseSpec { specs, orders: vec![order], prune_after: [1u64, 2, 3][k % 3] });
     }
     // 3. random larger trees: two or three competing branches growing in turns (repeated back-and-forth reorgs)
     let nrand = if thorough { 400 } else { 60 };
@@ -594,7 +650,8 @@ pub fn cases(seed: u64, tier: &str) -> Vec<CaseSpec> {
         }
         o.push(r.below(n as u64) as usize);
         orders.push(o);
-        v.push(CaseSpec { specs, orders });
+        let prune_after = if r.coin(1, 3) { 2 } else { 50 };
+        v.push(CaseSpec { specs, orders, prune_after });
     }
     v
 }
@@ -637,7 +694,7 @@ pub fn worker(seed: u64, tier: &str, start: usize) {
                 writeln!(o, "{}\t{}", tag, s).unwrap();
                 o.flush().unwrap();
             };
-            rt.block_on(run_case(&tree, &c.specs, order, &mut emit));
+            rt.block_on(run_case(&tree, &c.specs, order, c.prune_after, &mut emit));
             k += 1;
         }
     }
